@@ -89,6 +89,14 @@ func inject(d string, m *gm.Schema, ins []Inject) {
 				q = "`ufree2`"
 			}
 			users.Checks = append(users.Checks, gm.Check{Name: "ck_hostile", Expr: q + " <> " + lit(d, in.S)})
+		case "check-raw":
+			// an expression with operators made of the characters that start comments or quotes elsewhere, outside any quotes
+			raws := map[string][]string{
+				"postgres": {`("uname" #>> '{a,b}') IS NOT NULL`, `("age" # 3) > 0`, `("uname" #- '{a}') IS NOT NULL`, `("uname" #> '{a}') IS NOT NULL AND "age" > 0`, `"age" @> 1`, `("age" <-> 3) < 1`},
+				"mysql":    {"(`age` ^ 3) > 0", "NOT (`age` <=> 3)", "(`age` DIV 2) > 0", "(`age` -> '$.a') IS NULL"},
+				"sqlite":   {`("age" -> '$.a') IS NULL`, `("age" ->> '$.a') IS NULL`, `("age" % 2) = 0`},
+			}[d]
+			users.Checks = append(users.Checks, gm.Check{Name: "ck_raw", Expr: raws[len(in.S)%len(raws)]})
 		case "enum-value", "enum-value-first", "enum-value-middle":
 			if d == "postgres" {
 				for i := range m.Enums {
